@@ -28,7 +28,7 @@ from lsst.daf.relation import (
 )
 
 from . import model as M
-from .exprs import build_expr, build_pred, expr_cols, expr_udfs, pred_cols, pred_udfs, pred_trivial
+from .exprs import build_expr as _build_expr, build_pred as _build_pred, expr_cols, expr_udfs, pred_cols, pred_udfs, pred_trivial
 from .interp import InterpError, interp
 from .monitors import MON, install
 from .ops_extra import ExtraOps, live_leaf_ids
@@ -36,6 +36,24 @@ from .tags import NONKEY
 from .world import SimIOError, SimRows, World, children, needs_processing, shape, walk, walk_live
 
 install()
+
+_MEMO: dict = {}
+
+
+def build_expr(e, tags):
+    """Same JSON expression -> same library object within a run (callers share expression objects)."""
+    k = ("e", id(tags), json.dumps(e))
+    if k not in _MEMO:
+        _MEMO[k] = _build_expr(e, tags)
+    return _MEMO[k]
+
+
+def build_pred(p, tags):
+    k = ("p", id(tags), json.dumps(p))
+    if k not in _MEMO:
+        _MEMO[k] = _build_pred(p, tags)
+    return _MEMO[k]
+
 
 REPO_MARK = "/lsst/daf/relation/"
 
@@ -107,6 +125,8 @@ class Run(ExtraOps):
         self.mat_entries = {}
         self.ill_routes = set()
         self.in_recovery = False
+        self.payload_content = {}
+        self._keep_nodes = []
         self.commute_matrix = Counter()
         self._uuid_orig = uuid.uuid4
         rng = self.w.rng
@@ -114,6 +134,7 @@ class Run(ExtraOps):
 
     # ------------------------------------------------------------------ utils
     def close(self):
+        _MEMO.clear()
         uuid.uuid4 = self._uuid_orig
         MON.active = False
         self.w.close()
@@ -607,9 +628,19 @@ class Run(ExtraOps):
         must = None
         if l.mv.engine == r.mv.engine and self._order_loss_required(l, r):
             must = RelationalAlgebraError
+        def call():
+            pred = build_pred(p, tags) if p is not None else None
+            if op.get("cc"):
+                from lsst.daf.relation import Join, Predicate
+
+                cc = frozenset(tags[c] for c in (op["cc"] if isinstance(op["cc"], list) else sorted(shared)))
+                j = Join(pred if pred is not None else Predicate.literal(True), cc, cc)
+                return j.partial(r.rel).apply(l.rel, **kw)
+            return l.rel.join(r.rel, pred, **kw)
+
         self.factory(
             op, [l, r],
-            lambda: l.rel.join(r.rel, build_pred(p, tags) if p is not None else None, **kw),
+            call,
             lambda rel: self._jmodel(l, r, p, op, rel),
             must_raise=must,
         )
@@ -710,10 +741,31 @@ class Run(ExtraOps):
         self.logev(self.w.op_index, "abandon")
 
     # ------------------------------------------------------------- invariants
+    def check_payload_content(self, ent, node):
+        """Once attached, the rows held by an iteration-engine payload never change."""
+        p = node.payload
+        rows = getattr(p, "rows", None)
+        if rows is None or isinstance(p, SimRows):
+            return
+        try:
+            seq = list(rows.values()) if isinstance(rows, dict) else list(rows)
+            h = hashlib.sha1(repr([sorted((t.qualified_name, v) for t, v in r.items()) for r in seq]).encode()).hexdigest()[:12]
+        except Exception:
+            return
+        k = (id(node), id(p))
+        old = self.payload_content.get(k)
+        if old is None:
+            self.payload_content[k] = h
+            self._keep_nodes.append((node, p))
+        elif old != h:
+            self.payload_content[k] = h
+            self.violate("mutated", {"what": "rows of a cached payload changed", "node": str(node)[:200]}, entry=ent)
+
     def check_payload_ledger(self):
         for ent in self.pool:
             for node in walk(ent.rel):
                 if isinstance(node, MarkerRelation):
+                    self.check_payload_content(ent, node)
                     self.stats["payload_nodes_checked"] += 1
                     tok = self.w.token(node.payload)
                     k = id(node)
@@ -733,6 +785,9 @@ class Run(ExtraOps):
         for idx, ent in enumerate(self.pool):
             if ent.alias:
                 continue
+            for node in walk(ent.rel):
+                if isinstance(node, MarkerRelation) and node.payload is not None:
+                    self.check_payload_content(ent, node)
             self.stats["fingerprints_checked"] += 1
             try:
                 fp = fingerprint(self.w, ent.rel)
